@@ -68,6 +68,7 @@ type Profile struct {
 	AllowStop   bool
 	AllowCancel bool
 	ClockNoise  bool
+	Retain      bool // fetcher spec: the consumer keeps every EntryBatch as delivered and reads it again later
 }
 
 type delivery struct {
@@ -122,6 +123,7 @@ type World struct {
 	lastAnswer    map[string]string // range digest -> kind of the last answer
 	seen          map[string]bool   // parked keys already logged
 	grewConsumed  bool
+	retained      []scanner.EntryBatch // batches kept by the consumer exactly as delivered
 }
 
 // New returns a constructor for the kernel.
@@ -238,6 +240,7 @@ func (w *World) Init(s *kernel.Sim) {
 	p.AllowStop = !w.mode.Scanner && t.Chance(1, 3) // the Scanner has no Stop
 	p.AllowCancel = t.Chance(1, 4)
 	p.ClockNoise = t.Chance(1, 3)
+	p.Retain = !w.mode.Scanner && t.Chance(1, 2)
 
 	// the log: every entry it will ever publish
 	w.log = &simLog{s: s}
@@ -278,6 +281,10 @@ func (w *World) Init(s *kernel.Sim) {
 	}
 	w.logf("profile scanner=%v batch=%d par=%d start=%d end=%d cont=%v size0=%d max=%d grows=%d order=%v stop=%v cancel=%v noise=%v faults:%s",
 		w.mode.Scanner, p.Batch, p.Par, p.Start, p.End, p.Continuous, p.Size0, p.MaxSize, p.Grows, names, p.AllowStop, p.AllowCancel, p.ClockNoise, fs)
+	if p.Retain {
+		w.logf("consumer retains the batches")
+		s.Probe("retain.run")
+	}
 	if w.mode.Scanner {
 		w.logf("scanner workers=%d buffer=%d precertOnly=%v scan=%v matcher=%s", p.NumWorkers, p.BufferSize, p.PrecertOnly, p.UseScan, w.match.Desc)
 		w.scan = scanner.NewScanner(w.log, scanner.ScannerOptions{FetcherOptions: fo, Matcher: w.match.m, PrecertOnly: p.PrecertOnly, NumWorkers: p.NumWorkers, BufferSize: p.BufferSize})
@@ -390,7 +397,15 @@ func (w *World) finish(err error) {
 
 func (w *World) onBatch(b scanner.EntryBatch) {
 	w.mu.Lock()
-	w.pending = append(w.pending, delivery{kind: 0, start: b.Start, entries: b.Entries})
+	d := delivery{kind: 0, start: b.Start, entries: b.Entries} // the slice as delivered: no copy
+	if w.s.Timed {
+		// timed mode: checked here and now (at delivery), earlier batches this consumer kept are read again
+		if !w.s.Violated() {
+			w.judgeDelivery(d)
+		}
+	} else {
+		w.pending = append(w.pending, d)
+	}
 	w.mu.Unlock()
 	w.s.Seam(nil, "cb", "batch", fmt.Sprintf("%07d", b.Start), nil)
 }
@@ -694,6 +709,29 @@ func (w *World) checkIndex(idx int64) bool {
 	return false
 }
 
+// verifyRetained reads the retained batches from position `from` on again: each was correct when
+// it was delivered (judgeDelivery), so a difference now means the memory handed to the callback was
+// changed afterwards.
+func (w *World) verifyRetained(from int, when string) {
+	for _, b := range w.retained[from:] {
+		w.s.Probe("retain.reverified")
+		for i, e := range b.Entries {
+			idx := b.Start + int64(i)
+			src := w.log.entries[idx]
+			if bytes.Equal(e.LeafInput, src.leaf) && bytes.Equal(e.ExtraData, src.t.extra) {
+				continue
+			}
+			holds := "other bytes"
+			if len(e.LeafInput) >= 10 {
+				holds = fmt.Sprintf("the leaf of index %d", int64(binary.BigEndian.Uint64(e.LeafInput[2:10])-tsBase))
+			}
+			w.s.Violate("bytes", "fetcher|retained-batch-changed", "the batch delivered for [%d,%d] was correct at its callback; read again %s, entry %d (index %d) holds %s: the entries handed to the callback were overwritten afterwards",
+				b.Start, b.Start+int64(len(b.Entries))-1, when, i, idx, holds)
+			return
+		}
+	}
+}
+
 func eqChain(got []ct.ASN1Cert, want [][]byte) bool {
 	if len(got) != len(want) {
 		return false
@@ -734,6 +772,13 @@ func (w *World) judgeDelivery(d delivery) {
 			if idx >= w.sthPrep && w.prof.Continuous {
 				w.grewConsumed = true
 			}
+		}
+		if w.prof.Retain {
+			// a consumer that keeps the EntryBatch beyond the callback (migrillian's fetchTail hands it to
+			// submitter goroutines through a channel): the batches kept so far are read again now ...
+			w.verifyRetained(max(0, len(w.retained)-6), "at a later callback")
+			w.retained = append(w.retained, scanner.EntryBatch{Start: d.start, Entries: d.entries})
+			s.Probe("retain.batches")
 		}
 		return
 	}
@@ -861,6 +906,9 @@ func (w *World) judgeDone() {
 		errText = w.runErr.Error()
 	}
 	w.logf("run returned err=%s delivered=%d", errText, w.nDelivered)
+	if w.prof.Retain && !s.Violated() {
+		w.verifyRetained(0, "after the run had ended") // ... and all of them once the run is over
+	}
 	switch {
 	case w.cancelled && !w.settleEnded:
 		s.Probe("run.cancelled")
